@@ -59,7 +59,7 @@ impl Engine for LiveEngine {
         let (shards, workers) = if hot { (1, 1) } else { (shards, workers) };
         let sim = SimConfig {
             strategy: if hot && shards == 1 {
-                // the flusher gets far fewer steps than the writer (but is never starved for good)
+                // the flusher (thread 1) is held back after every drain, see hold_sites below
                 Strategy::Starve(1)
             } else {
                 match c.below(3) {
@@ -73,6 +73,10 @@ impl Engine for LiveEngine {
             workers,
             hash_seed: c.u64(),
             max_steps: 3_000_000,
+            // hot-key runs: the flusher is held after every drain until the writer has replaced
+            // the newest drained generation again - every generation it looks at is stale
+            hold_sites: if hot { vec!["wb.after_drain".to_string()] } else { Vec::new() },
+            hold_steps: if hot { 16 } else { 0 },
             ..SimConfig::default()
         };
         let store = StoreCfg {
@@ -201,6 +205,16 @@ impl Engine for LiveEngine {
                 periodic_checks += 1;
                 if std::env::var("SIMCHECK_DEBUG").is_ok() {
                     eprintln!("periodic check at {} ms: {} changes logged, writes_flushed={} hot={}", (now - sc.sim.epoch_ns) / 1_000_000, log.len(), store.stats().writes_flushed, sc.knob("hot", 0));
+                    if let Ok(d) = codec::decode_image(&disk.durable_image(), DecodeOptions::default()) {
+                        eprintln!(
+                            "   image: live {:?} stale {:?}; buffered {:?} retirements {:?} hot key in memory {:?}",
+                            d.live.iter().map(|(k, r)| (show(k), r.timestamp % 100_000_000_000, r.sector)).collect::<Vec<_>>(),
+                            d.stale.iter().map(|(k, ts, s, n)| (show(k), *ts % 100_000_000_000, *s, *n)).collect::<Vec<_>>(),
+                            store.verif_shard_counts(),
+                            store.verif_retirements_pending(),
+                            store.verif_key(&sc.keys[0]).map(|v| (v.timestamp % 100_000_000_000, v.sector, v.refcount)),
+                        );
+                    }
                 }
             }
         }
